@@ -84,7 +84,11 @@ def run(ctx):
     b += [("rdb-partition", c03.part_history) for _ in range(3 if ctx.tier == "quick" else 60)]
     # undelete: a refused undelete keeps nothing allocated, an accepted one takes back exactly the blocks of the entry
     from . import undel
-    b += [("undelete", undel.history) for _ in range(24 if ctx.tier == "quick" else 400)]
+    # every scenario kind on a directory-cache flavour and on one without (the decisions of adfUndelDir / adfUndelFile differ), then random ones
+    for kind in undel.KINDS:
+        for fl in (ctx.rng.choice([4, 5]), ctx.rng.choice([0, 1, 2, 3])):
+            b.append(("undelete", (lambda k, f: (lambda c: undel.history(c, k, f)))(kind, fl)))
+    b += [("undelete", undel.history) for _ in range(6 if ctx.tier == "quick" else 400)]
     rule = ("DIRCACHE directories grown over several cache blocks, emptied tail-first / head-first / randomly / by moving entries out, then deleted; create/truncate/delete cycles over the size classes 0, <72, =72, >72, >144 data blocks with and without directory cache; file, namespace, multi-page and "
             "partition histories; at every dump: blocks marked allocated = reachable + reserved (decoder), free count reported by the library = bitmap count; "
             "after deleting everything the free count equals the initial one; distinct = distinct script")
